@@ -18,7 +18,7 @@ RULE = ("30 keys x 7 degrees x {triad, seventh} x {triads()/sevenths(), function
         "substitute x depth 0..2 on every numeral x suffix x prefix -3..+3 (enumerated, in 5 major keys quick / 15 "
         "thorough) and at every index of Hypothesis progressions of length 1..4. Non-trivial: key with accidentals, or "
         "prefix != 0, or non-empty suffix, or depth > 0."
-        ' Also: whole progressions with repeated degrees checked element-wise; negative indices; the documented recursion relation of substitute (depth d = depth 0 plus the depth d-1 substitutions of each result); every attribute name of the theory modules and Hypothesis ASCII text as unrecognised numerals; every result of a depth-0 substitution is fed to the five rules again (inputs with up to six accidentals).')
+        ' Also: whole progressions with repeated degrees checked element-wise; negative indices; the documented recursion relation of substitute (depth d = depth 0 plus the depth d-1 substitutions of each result); every attribute name of the theory modules and Hypothesis ASCII text as unrecognised numerals; every result of a depth-0 substitution is fed to the five rules again (inputs with up to six accidentals). The recursion relation of substitute is compared as a collection of distinct answers.')
 ASSUMPTIONS = [
     "chord notes are compared on letter + pitch class + unmixed + <= 6 accidentals against own key notes / formulas",
     "chord -> function is asserted in major keys only; the expected numeral is looked up case-insensitively among the "
